@@ -88,6 +88,8 @@ def gen_world(rng, i, tier):
     w["base"] = base
     # the root the tool is pointed at may have any legal directory name
     w["rootsub"] = rng.pick(["", "", "", "/stage:2", "/img;rw", "/with space", "/a=b#c"])
+    # ... and may be SPELLED in a way that starts like one of the directories the tool adds it to (/etc/../<root>)
+    w["rootpre"] = rng.pick(["", "", "", "/etc/..", "/usr/..", "/./"])
     nodes = []
     fid = 0
     if rng.chance(0.15):
@@ -160,7 +162,7 @@ def build_plans(world):
     if world.get("comment_first"):
         common.reverse()
     rs = world.get("rootsub", "")
-    env = {"ECONFTOOL_ROOT": "$ROOT" + rs, "ASAN_OPTIONS": "exitcode=77:detect_leaks=0:replace_str=0:intercept_strlen=0:intercept_strchr=0:intercept_strndup=0", "UBSAN_OPTIONS": "print_stacktrace=1:halt_on_error=1:exitcode=77", "HOME": "$ROOT/home"}
+    env = {"ECONFTOOL_ROOT": world.get("rootpre", "") + "$ROOT" + rs, "ASAN_OPTIONS": "exitcode=77:detect_leaks=0:replace_str=0:intercept_strlen=0:intercept_strchr=0:intercept_strndup=0", "UBSAN_OPTIONS": "print_stacktrace=1:halt_on_error=1:exitcode=77", "HOME": "$ROOT/home"}
     ops = []
     for cmd in ("show", "syntax", "cat"):
         ops.append({"op": "tool", "argv": ["$TOOL", cmd] + common + [target], "env": env, "tag": "tool_" + cmd})
@@ -244,9 +246,18 @@ def sanitizer_hit(r):
     return r.get("exit") == 77 or r.get("signal") or "SANITIZER" in (r.get("err") or "") or "runtime error:" in (r.get("err") or "")
 
 
+def unspell_root(world, res):
+    """the tool reports paths below ECONFTOOL_ROOT as it was spelled; the library side uses the plain root"""
+    pre = world.get("rootpre", "")
+    if not pre:
+        return res
+    import json
+    return json.loads(json.dumps(res).replace(pre + "$ROOT", "$ROOT"))
+
+
 def check(world, plans, results):
     v = Verdict()
-    plan, res = plans[0], results[0]
+    plan, res = plans[0], unspell_root(world, results[0])
     if crash_check(v, res, "tool differential"):
         v.sig = sig_of("crash", v.classes())
         return v
